@@ -55,6 +55,19 @@ func c13Setup(scenario int) *c13Env {
 	}
 	heights := []int64{1, 101, 201, 301}
 	times := []int64{c13T0, c13T0 + base + 1728, c13T0 + base + 2*1728, c13T0 + base + 3*1728}
+	// blocks inside the cycles (what a node restarted in mid cycle sees as the latest
+	// block): regular spacing, and in scenario 1 the later ones fall after the
+	// opening of the close window of year 1
+	for _, first := range []int64{1, 101, 201} {
+		for _, off := range []int64{1, 49, 99} {
+			t := times[(first-1)/100] + off*17
+			if scenario == 1 && off > 1 {
+				t += 2 * 3600
+			}
+			heights = append(heights, first+off)
+			times = append(times, t)
+		}
+	}
 	e.store.Init(sv.BlockStore(heights, times))
 	start := time.Unix(c13T0, 0).UTC()
 	for y := 0; y < 2; y++ {
@@ -109,9 +122,10 @@ func SV_C13_pull() {
 // increase), TillLastCycle does not (it is only written at the last block of a
 // cycle).
 //
-// sv:bounds as SV_C13_pull; cycle start heights {1, 101, 201}; later height = start + {1, 49, 99}
+// sv:bounds as SV_C13_pull; cycle start heights {1, 101, 201}; later height = start + {1, 49, 99}, whose own block times exist in the block store (regular spacing; in scenario 1 the later ones lie after the opening of year 1's close window)
 // sv:goal same pulled amount and same selected year / burnout flag
 func SV_C13_restart_independent() {
+	sv.CrashIsViolation("restarted-node-computes-the-reward-without-crashing")
 	scenario := sv.Choice("scenario", 3)
 	e := c13Setup(scenario)
 	first := []int64{1, 101, 201}[sv.Choice("cycleStart", 3)]
